@@ -428,7 +428,7 @@ Partial IVs over all lives; lifting `request_nonce_used_at_most_once` over resta
 
 `ReplayB2.recvForged`: the response branch of `coap_oscore_decrypt_pdu` while `b_2_step != NONE` takes the kid context of
 the OSCORE option — not authenticated — and re-derives the context (`oscore_update_ctx`) before the response is verified.
-After fix 74ce665 every error exit puts `b_2_step` and the ID Context (with it Sender Key, Recipient Key, Common IV)
+After fix 6ebee56 every error exit puts `b_2_step` and the ID Context (with it Sender Key, Recipient Key, Common IV)
 back. -/
 
 theorem b2Update_cases {s s1 : ReplayB2.B2} {kc : Option (List Nat)} (h : ReplayB2.b2Update s kc = some s1) :
